@@ -286,6 +286,24 @@ pub fn hexbytes(b: &[u8]) -> String {
   s
 }
 
+/// The recorded events with bus addresses reduced to 16 bits and values to 8.
+/// Translated code passes `addr: u16` / `value: u8` arguments in registers whose
+/// upper bits hold leftovers (e.g. `mov si, imm16`); optimised builds of the hook
+/// widen them without re-masking (the ABI lets a callee assume the caller
+/// extended them), so the raw event fields can carry garbage above bit 15 / 7.
+pub fn masked_events() -> Vec<crate::verif::Event> {
+  crate::verif::events()
+    .iter()
+    .map(|e| {
+      if e.kind == crate::verif::EV_WRITE || e.kind == crate::verif::EV_READ {
+        crate::verif::Event { kind: e.kind, a: e.a & 0xffff, b: e.b & 0xff }
+      } else {
+        *e
+      }
+    })
+    .collect()
+}
+
 /// Write events recorded by hook H1 since `verif::start`.
 pub fn logged_writes() -> Vec<(u16, u8)> {
   crate::verif::events()
